@@ -106,6 +106,11 @@ def implies(a, b):
     return (not a) or bool(b)
 
 
+def is_ref(x):
+    """an odML object / heap object (anything that is not a plain value)"""
+    return not isinstance(x, (type(None), bool, int, float, str, tuple, list, dict, bytes))
+
+
 def same(a, b):
     """identical value including its type (0 and 0.0 and False are all different)"""
     if type(a) is not type(b):
@@ -117,5 +122,5 @@ def same(a, b):
 
 NATIVE_ENV = {
     'is_int': is_int, 'is_bool': is_bool, 'is_str': is_str, 'is_tuple': is_tuple, 'is_list': is_list,
-    'is_none': is_none, 'is_float': is_float, 'implies': implies, 'same': same,
+    'is_none': is_none, 'is_float': is_float, 'implies': implies, 'same': same, 'is_ref': is_ref,
 }
